@@ -491,8 +491,12 @@ class OwnAnalysis:
                 val = self.eval_rhs(st, rhs, n)
                 self.assign(st, loc, val, n)
                 return [st]
-            # store of a tracked pointer into something untracked = move
+            # store of a tracked pointer into something untracked = move (a plain local that is not tracked is just a second name
+            # for the duration of the function: the owner stays the tracked variable)
             src = self.loc_of(rhs)
+            l9 = lhs.strip()
+            if l9.k == "DeclRefExpr" and l9.j.get("dk") == "local" and rhs.strip().k == "BinaryOperator" and rhs.strip().j.get("op") == "=":
+                src = None          # a = b = alloc(): b stays the owner
             if src is not None and rhs.strip().j.get("ct", "").endswith("*"):
                 obj = st.env.get(src)
                 if obj not in (None, NULL, UNK):
